@@ -178,11 +178,21 @@ Proof.
         cbn [val length]. rewrite Nat2Z.inj_succ, Z.pow_succ_r by lia.
         repeat split; [|lia|constructor; [apply isword_mod|exact Hw]|lia|lia].
         rewrite Hstep. nia.
-      * destruct (sub_loop a b 1) as [r' bf'] eqn:E. inversion H; subst; clear H.
+      * destruct (sub_loop a b 1) as [r' bf'] eqn:E. cbv beta iota in H. apply pair_equal_spec in H. destruct H as [<- <-].
         apply IH in E; [|assumption|assumption|cbn [length] in Hlen; lia|lia].
         destruct E as (Hv & Hl & Hw & Hcf).
         assert ((((WMAX - y + 1) mod B - borrow) mod B + x) mod B = x - y - borrow + B) as Hstep.
-        { unfold isword, WMAX, B in *. lia. }
+        { assert (Hneg : x - y - borrow < 0).
+          { apply orb_false_elim in Hcond. destruct Hcond as [Hg He].
+            rewrite Z.gtb_ltb, Z.ltb_ge in Hg.
+            apply andb_false_elim in He. destruct He as [He|He].
+            - apply Z.eqb_neq in He. lia.
+            - apply Z.eqb_neq in He. lia. }
+          rewrite Zplus_mod_idemp_l.
+          replace ((WMAX - y + 1) mod B - borrow + x) with ((WMAX - y + 1) mod B + (x - borrow)) by ring.
+          rewrite Zplus_mod_idemp_l.
+          replace (WMAX - y + 1 + (x - borrow)) with (x - y - borrow + B) by (unfold WMAX, B; ring).
+          apply Z.mod_small. unfold isword in *. lia. }
         cbn [val length]. rewrite Nat2Z.inj_succ, Z.pow_succ_r by lia.
         repeat split; [|lia|constructor; [apply isword_mod|exact Hw]|lia|lia].
         rewrite Hstep. nia.
